@@ -110,3 +110,34 @@ def add_error_types(u):
     u.add_type("src/eval.rs", "ExceptionInfo")
     u.add_type("src/eval.rs", "EvalError")
     u.add_type("src/eval.rs", "RestoreValues")
+
+
+ENV_OPAQUE = """
+#[verifier::external_body] pub struct EnclosingSymbol { _o: u8 }
+#[verifier::external_body] pub struct TypeHint { _o: u8 }
+#[verifier::external_body] pub struct SyntaxId { _o: u8 }
+#[verifier::external_body] pub struct TypeVarEnv { _o: u8 }
+#[verifier::external_body] pub struct Expression { _o: u8 }
+"""
+ENV_OPAQUE_ASSUMPTIONS = {
+    "EnclosingSymbol": "opaque stand-in for env::EnclosingSymbol",
+    "TypeHint": "opaque stand-in for parser::ast::TypeHint",
+    "SyntaxId": "opaque stand-in for parser::ast::SyntaxId",
+    "TypeVarEnv": "opaque stand-in for garden_type::TypeVarEnv (an FxHashMap)",
+    "Expression": "opaque stand-in for parser::ast::Expression",
+}
+
+ENV_TYPE_RULES = [
+    rw.simple("T1", r"Rc<RefCell<NamespaceInfo>>", "NamespaceRef"),
+]
+
+
+def add_env_types(u):
+    """BlockState, ExpressionState, Bindings (eval.rs); StackFrame, Stack (env.rs) verbatim,
+    with the field types they do not own replaced by opaque stand-ins."""
+    u.raw(ENV_OPAQUE, kind="prelude")
+    u.add_type("src/eval.rs", "BlockState")
+    u.add_type("src/eval.rs", "ExpressionState")
+    u.add_type("src/eval.rs", "Bindings")
+    u.add_type("src/env.rs", "StackFrame", rules=ENV_TYPE_RULES)
+    u.add_type("src/env.rs", "Stack")
